@@ -1184,6 +1184,10 @@ def execute_c14(scn):
             # a NEW attack object created on the same building Container / selection function / model objects as the one whose build failed:
             # objects are independent, its profile must be that of the building set alone
             try:
+                try:
+                    failed_sibling.container_building, failed_sibling.model
+                except AttributeError:
+                    raise kinds.Unavailable('attack object does not expose container_building / model')
                 sib = _c14_attack(scn, scared, storage, Tb, vb, like=failed_sibling)
                 sib.build()
                 probes['sibling_after_failed_build'] = 1
@@ -1191,6 +1195,8 @@ def execute_c14(scn):
                     violation = viol('sibling_profile_differs_from_model', ['C14', 'sibling_profile_differs_from_model'] + sig_tail,
                                      'attack created on the container of a failed build: templates maxdiff=%s covariance maxdiff=%s' % (
                                          compare.maxdiff(np.asarray(sib.templates)[popm], mus[popm]), compare.maxdiff(sib.pooled_covariance, S)))
+            except kinds.Unavailable:
+                probes['sibling_unobservable'] = 1
             except Exception as e:
                 violation = viol('build_raised', ['C14', 'build_raised'] + sig_tail + [type(e).__name__, 'sibling'], 'build() of a sibling attack raised %r' % (e,))
         if violation is None:
